@@ -52,9 +52,9 @@ def check(ctx):
     fns = [b for b in q.fn_by_suffix(P, "quote::ToTokens>::to_tokens", "scale_typegen") if "derives::Derives as" in b["path"]]
     if len(fns) == 1:
         # which sort is applied is C06's concern; here: the WHOLE set is emitted, in the derive / attribute position
-        SORT = "mut[Iterator::collect(HashSet::iter(P0.%s));.slice::sort" + ANY + " if Not(HashSet::is_empty(P0.%s))]"
+        SORT = "mut[Iterator::collect(HashSet::iter(P0.%s));.slice::sort" + ANY + "]"
         exp = ("{if(Not(HashSet::is_empty(P0.derives))){Extend::extend(P1,T[# [ derive ( #( #0 ),* ) ]](%s))}else{'()'};"
-               "if(Not(HashSet::is_empty(P0.attributes))){Extend::extend(P1,T[#( #0 )*](%s))}else{'()'}}") % (SORT % ("derives", "derives"), SORT % ("attributes", "attributes"))
+               "if(Not(HashSet::is_empty(P0.attributes))){Extend::extend(P1,T[#( #0 )*](%s))}else{'()'}}") % (SORT % "derives", SORT % "attributes")
         expect_term(ctx, "C08.8", "derives-tokens", fns[0]["sp"], Norm(fns[0]).term(fns[0]["body"]), exp,
                     "`#[derive(a, b, ..)]` iff there are derives, followed by every attribute; each list is the whole set")
     else:
@@ -143,9 +143,10 @@ def flatten(ctx):
     for lid, sym in syms.items():
         if sym == "IDS":
             it = N.local_term(lid)
+            declared_in = N.guards_term(N.def_ctx.get(lid, (0, ()))[1] or ())
             ok = it[0] == "mut" and show(it[2]) == "HashSet::new()" and len(it[3]) == 1 and it[3][0][0] == "mutarg" \
                 and it[3][0][1] == "derives::collect_type_ids" and [show(a) for a in it[3][0][2]] == ["%s.id" % E, "P%d" % i_reg, "&self"] \
-                and [show(g) for g in it[3][0][3] if show(g).startswith("for(")] == ["for(%s)" % REG]
+                and not [g for g in it[3][0][3] if show(g).startswith("for(")] and [g for g in declared_in if g.startswith("for(")] == ["for(%s)" % REG]
             ctx.expect(ok, "C08.4", "flatten/reachable-set", fn["sp"],
                        "the id set is fresh per entry and filled by the reachability traversal started at THIS entry's id",
                        "the id set is built as " + show(it)[:600])
